@@ -8,15 +8,131 @@ BASE = ("cd /repo && /venv/bin/python -m pytest -ra -q -p no:cacheprovider --tim
         "--continue-on-collection-errors")
 
 # id -> (technique, level text, level note, design ref)
-CHECKS = {
+T = "bounded-exhaustive exploration of the real code"
+ALL = {
+    "C01": ("exhaustive enumeration of chunk decompositions x ops x rasters under a controlled one-task-at-a-time Dask "
+            "scheduler with write-monitor POR + deviation-bounded schedule enumeration; NumPy backend as reference model",
+            "Every chunking of a 4x5 (thorough 5x6) raster x every Dask-accepting op x kernel shapes x non-finite cell placements x "
+            "dtypes/cell sizes, and every independent chunking pair of multi-band inputs, is computed under our scheduler and "
+            "compared cell for cell with the NumPy call; every task is checked pure (=> all schedules equivalent), all <=1 (2) "
+            "deviation schedules of 2-block graphs are executed.",
+            "Trusts the NumPy backend as reference (as the property states), Dask's graph construction, and the purity argument "
+            "(tasks that neither mutate reachable values nor global state commute). Threads x {1,2,4,16} runs are a labelled complement.",
+            "DESIGN.md §2 C01, §1.2 E3"),
+    "C02": ("exhaustive enumeration of (zone,value) cell sequences x zone_ids x nodata x stat subsets vs dictionary group-by model",
+            "All cell sequences over small zone/value alphabets (incl. NaN, +-inf, negative and fractional ids) up to N cells x "
+            "ordered zone_ids sub-lists x nodata x statistic subsets / custom reducers x both return types are run through "
+            "zonal.stats and compared with a dict group-by.",
+            "Trusts the 60-line group-by oracle; statistics depend only on the multiset of (zone,value) pairs, so small N covers the "
+            "bookkeeping (sort/stride offsets, selection, NaN stripping).",
+            "DESIGN.md §2 C02"),
+    "C03": ("exhaustive enumeration of cell sequences x chunk decompositions (zones and values independently) under the "
+            "controlled Dask scheduler with write monitor; NumPy backend as reference model",
+            "Every (zone,value) sequence over a 9-letter alphabet on short rasters x every chunking, every pair of independent "
+            "chunkings of zones/values, parameter products (stat subsets, zone_ids/cat_ids orders, nodata, 3-D count) compared with "
+            "the NumPy table; per-block combination depends only on which zones are absent/invalid/valid per block.",
+            "Trusts the NumPy backend as reference; rasters <= 8 cells because the Dask zonal graphs have ~650 tasks per block.",
+            "DESIGN.md §2 C03"),
+    "C04": ("exhaustive enumeration of (zone,category) cell sequences x ordered zone_ids/cat_ids selections x agg vs Counter model",
+            "All (zone,cat) sequences up to N cells x every ordered sub-list of zone ids / category ids (incl. absent ids) x agg x "
+            "nodata, and 3-D layers x the seven aggregates, compared with a Counter-based contingency table; restriction = "
+            "rows/columns of the unrestricted oracle matched by label.",
+            "Trusts the Counter oracle; NumPy backend (Dask rides on C03).",
+            "DESIGN.md §2 C04"),
+    "C05": ("exhaustive enumeration of terrains x observers (+ deviation-bounded larger grids) vs independent O(n^2) line-of-sight model",
+            "Every terrain over a height alphabet on small grids x every observer x configuration product, plus every <=2-cell "
+            "deviation from flat on 5x5..7x7 grids (drives the sweep's status tree through rotations/deletions), compared with an "
+            "O(n^2) evaluation of the same model with geometric corner selection; exact ties skipped and counted.",
+            "Trusts the O(n^2) oracle and the tie rule (eps 1e-9).",
+            "DESIGN.md §2 C05"),
+    "C06": ("exhaustive enumeration of target layouts x metrics x max_distance x coordinate systems (interpreted sources + compiled "
+            "conformance slice) vs brute-force nearest-target model",
+            "Every layout over {background, target, NaN} on small grids and the configuration product on every {0,T} layout are run "
+            "through proximity/allocation/direction and checked against the relations of the statement with a brute-force oracle.",
+            "Large spaces run the same sources under NUMBA_DISABLE_JIT=1 (the per-call closure costs 1.3 s to compile); a compiled "
+            "slice is compared case by case. Known finding: GDAL-sweep inexactness on listed layouts.",
+            "DESIGN.md §2 C06"),
+    "C07": ("exhaustive enumeration of chunkings x <=2-target layouts x max_distance grid under the controlled Dask scheduler; "
+            "NumPy backend as reference model",
+            "Every chunking of a 3x4 raster x every <=2-target layout x halo widths from 0 cells to the raster size, the single-block "
+            "fallback, non-square cells, NaN cells; compared with the whole-raster NumPy result; purity of every task monitored.",
+            "Interpreted sources + compiled conformance slice; equidistant targets may be named differently.",
+            "DESIGN.md §2 C07"),
+    "C08": ("exhaustive enumeration of 3x3 windows (tile-packed) x cell sizes x dtypes + single-cell perturbation locality vs "
+            "closed-form finite-difference formulas",
+            "Every 3x3 window over small alphabets, packed as tiles so that any dependency outside the window breaks the formula, "
+            "every single-cell perturbation of generic rasters (locality), offsets, quarter turns, hillshade angle grid.",
+            "Trusts the closed-form oracle (float64) and float32 tolerances; tie rule at flat/wrap decisions.",
+            "DESIGN.md §2 C08"),
+    "C09": ("exhaustive enumeration of 0/1 kernels x NaN placements x stats x reducer programs vs window-slicing model",
+            "Every 0/1 kernel of the small odd shapes x single-NaN placements x the seven statistics x reducer programs that read "
+            "individual window positions, mean passes/excludes, weighted convolution, hotspot classes and sign symmetry.",
+            "Trusts the slicing oracle; float32 tolerances; tie rule at z thresholds.",
+            "DESIGN.md §2 C09"),
+    "C10": ("exhaustive enumeration of function x backend x dtype x memory layout and of depth-2 call chains with a deep "
+            "before/after snapshot monitor, shares_memory and write probe",
+            "Every public raster function x {numpy,dask} x 10 dtypes x {C,F,strided,read-only} from the fresh state and every chain "
+            "f->g where g receives f's output; arguments deep-snapshotted, outputs checked for aliasing (shares_memory + write "
+            "probe) and for the input's shape/dims/coords/attrs/backend.",
+            "Documented exceptions encoded as the statement lists them; a dtype rejected by raising is not a violation.",
+            "DESIGN.md §2 C10"),
+    "C11": ("explicit-state history exploration with fresh-interpreter oracle (de Bruijn pair/triple covers, depth-2 trie), "
+            "observable-state digests, thread-count grid, preemption-bounded two-thread interleaving at line granularity, "
+            "parallel-kernel gate",
+            "Every ordered pair of a 24(58)-letter alphabet of colliding calls and every ordered triple of the core alphabet are executed "
+            "adjacently in fresh interpreters and each call is compared with the same call alone in a fresh interpreter; module "
+            "state vector digested around every call; all <=1(2)-preemption interleavings of pairs of public calls.",
+            "Histories covered by windows (pairs/triples) inside long histories + depth-2 trie from the fresh state; real numba "
+            "threads cannot be scheduled (gate + interpreted exploration instead).",
+            "DESIGN.md §2 C11, §1.2 E2/E3d/E3e"),
+    "C12": ("exhaustive enumeration of bin lists x value positions and of small rasters x k vs linear-scan / rational-cut / "
+            "brute-force-optimal-partition models",
+            "Every strictly ascending bin list over an alphabet x every value position x dtypes for reclassify/binary; every raster "
+            "of <= 6 (7) cells over two alphabets x k for the data-driven classifiers (labels, NaN pattern, monotonicity, exact cuts, "
+            "percentile bands, Jenks optimality by brute force).",
+            "Trusts np.percentile and the brute-force partition search.",
+            "DESIGN.md §2 C12"),
+    "C13": ("exhaustive enumeration of band tuples x dtypes x parameters vs exact-rational band formulas",
+            "Every tuple of band values over an 8-letter alphabet x dtypes x parameter grids is compared with the published formula "
+            "in exact rationals rounded to float32, plus NaN/zero-denominator behaviour, range, swap and scaling relations, true_color alpha.",
+            "Trusts the transcription of the published formulas.",
+            "DESIGN.md §2 C13"),
+    "C14": ("exhaustive enumeration of barrier layouts x start/goal pairs x connectivity x snapping x coordinate systems vs "
+            "Dijkstra + path validator",
+            "Every barrier layout of the small grids x every start/goal pair x connectivity x snap flags x coordinate systems "
+            "(fractional steps, offsets, descending y) compared with Dijkstra on the same move set and a chain validator.",
+            "Equal-cost paths: any optimal chain accepted.",
+            "DESIGN.md §2 C14"),
+    "C15": ("exhaustive enumeration of small rasters x masks x connectivity x transform vs flood-fill + point-in-polygon model",
+            "Every raster over {0,1}/{0,1,2} up to the cell budgets x masks x connectivity x dtypes x transforms; polygons re-rasterised "
+            "by even-odd test must reproduce the flood-fill components, areas = cell counts, ring orientation/closure/axis-parallel edges.",
+            "Trusts the flood-fill and even-odd oracles; compiled mode only.",
+            "DESIGN.md §2 C15"),
     "C16": ("exhaustive enumeration of all small rasters x neighbourhood vs flood-fill reference model",
             "Every raster over {0,1}/{0,1,2}/{0,1,NaN} up to the stated cell budgets x neighbourhood {4,8} x dtype is "
-            "run through the real regions() and compared with a flood-fill partition; bounded-exhaustive, so a "
-            "labelling bug whose trigger fits in <= 16 cells cannot be missed.",
-            "Trusts the flood-fill oracle (30 lines) and the small-scope argument: labelling only compares adjacent "
-            "cells for equality, so value magnitudes and raster area beyond the budget add no new behaviour classes.",
+            "run through the real regions() and compared with a flood-fill partition.",
+            "Trusts the flood-fill oracle (30 lines); labelling only compares adjacent cells for equality.",
             "DESIGN.md §2 C16"),
+    "C17": ("exhaustive enumeration of layer-value tuples x reference values x data_vars sub-lists x memory layouts vs per-cell "
+            "plain-Python definitions",
+            "Every L-tuple of layer values (L=2..4, thorough 5..6) laid out as cells x every reference value x every ordered "
+            "data_vars sub-list / ref_var x dtypes x C/F layout compared with per-cell definitions.",
+            "Trusts the per-cell oracle.",
+            "DESIGN.md §2 C17"),
+    "C18": ("exhaustive enumeration of rasters over {keep, 0, NaN} x exclusion / zone-id sets vs argwhere bounding-box model",
+            "Every raster over {keep,0,NaN} of the small shapes x exclusion sets (trim) and zones over {0,1,2} x id subsets (crop) "
+            "compared with the isel slice of the argwhere bounding box incl. coordinates and attrs.",
+            "All-excluded rasters are not asserted.",
+            "DESIGN.md §2 C18"),
+    "C19": ("exhaustive enumeration of point pairs/triples on planar and spherical lattices and of radius x cellsize x unit-string "
+            "grammar vs metric axioms / exact-rational ellipse / unit table",
+            "All pairs and triples on the lattices (poles, antimeridian, antipodes), out-of-range arguments, every radius x cell-size "
+            "pair for circle/annulus kernels by exact rationals, the radius-string grammar and calc_cellsize units.",
+            "Spellings outside the statement's unit list are open choices (accepted or rejected).",
+            "DESIGN.md §2 C19"),
 }
+READY = ["C16", "C19"]
+CHECKS = {k: ALL[k] for k in READY}
 
 PENDING = {}
 
